@@ -1127,14 +1127,13 @@ Section Legacy.
       apply (forallb_impl c_user not_colon _ c_user_not_colon Ht).
     Qed.
 
-    Lemma lg_parse_slash :
-      cr <> [] -> parse_legacy_slash is_digit (slash_form tk cyc sel) = Some lt.
+    Lemma lg_parse_slash : parse_legacy_slash is_digit (slash_form tk cyc sel) = Some lt.
     Proof.
-      intros Hcr. destruct lg_task as [Hne Ht].
+      destruct lg_task as [Hne Ht].
       unfold parse_legacy_slash. rewrite lg_body_slash.
       rewrite (span_app not_slash cyc (47 :: tk)); [| |reflexivity].
       - subst cyc. cbv beta iota zeta. rewrite (lo_digit _ _ _ _ L), (lo_cyc _ _ _ _ L).
-        apply nonempty_true in Hcr. apply nonempty_true in Hne. rewrite Hcr, Hne.
+        apply nonempty_true in Hne. rewrite Hne.
         unfold l_task. rewrite Ht. reflexivity.
       - apply (forallb_impl c_user not_slash _
                  (fun c H => c_sel_not_slash c (c_user_sel c H)) lg_cyc_user).
@@ -1165,10 +1164,10 @@ Section Legacy.
     Qed.
 
     Lemma lg_tokenise_slash :
-      cr <> [] -> legacy_tokenise is_space is_digit (slash_form tk cyc sel) = Some lt.
+      legacy_tokenise is_space is_digit (slash_form tk cyc sel) = Some lt.
     Proof.
-      intros Hcr. unfold legacy_tokenise.
-      rewrite (drop_nl_id _ lg_nonl_slash), lg_dot_rejects_slash, (lg_parse_slash Hcr).
+      unfold legacy_tokenise.
+      rewrite (drop_nl_id _ lg_nonl_slash), lg_dot_rejects_slash, lg_parse_slash.
       cbn [option_map]. now rewrite lg_strip.
     Qed.
 
